@@ -20,13 +20,14 @@ let op_of_json (j : json) : op =
   | "ext_file" -> OExtFile (jname (jfield j "n"), jn (jfield j "size"))
   | "ext_dir" -> OExtDir (jname (jfield j "n"))
   | "ext_remove" -> OExtRemove (jname (jfield j "n"))
+  | "ext_loop" -> OExtLoop (jname (jfield j "n"))
   | "ext_link" -> OExtLink (jname (jfield j "n"), (match jfield j "target" with JNull -> None | t -> Some (jn t)))
   | "ext_db" -> OExtDb (jname (jfield j "h"), jstatus (jfield j "st"))
   | "ext_mark" -> OExtMark (jname (jfield j "h"))
   | "daemon_start" ->
       (* streams: [[sd, sdlen, [content hashes]], ...] *)
       ODaemonStart ((match jfield_opt j "save" with Some (JBool v) -> Some v | _ -> None), SL.map (fun st -> match jlist st with
-                              | [sd; ln; hs] -> ((jname sd, jn ln), SL.map jname (jlist hs))
+                              | [sd; ln; hs; nj] -> (((jname sd, jn ln), SL.map jname (jlist hs)), jbool nj)
                               | _ -> raise (Model_error "stream expected")) (jlist (jfield j "streams")))
   | "restart" -> ORestart
   | "restart_save" -> ORestartSave (jbool (jfield j "b"))
@@ -34,14 +35,15 @@ let op_of_json (j : json) : op =
 
 let result_name = function
   | RDone -> "done" | RHave -> "have" | RBusy -> "busy" | RInvalid -> "invalid"
-  | RNoLength -> "nolength" | RDead -> "dead" | RPrecondition -> "precondition"
+  | RNoLength -> "nolength" | RDead -> "dead" | RPrecondition -> "precondition" | RFailed -> "failed"
 
 let obs (s : state) : json =
   JObj [
     ("disk", of_list (fun (n, e) -> match e with
                         | EFile sz -> JArr [of_bytes n; JStr "f"; of_n sz]
                         | EDir -> JArr [of_bytes n; JStr "d"; of_int 0]
-                        | ELink -> JArr [of_bytes n; JStr "l"; of_int 0]) (disk s));
+                        | ELink -> JArr [of_bytes n; JStr "l"; of_int 0]
+                        | ELoop -> JArr [of_bytes n; JStr "o"; of_int 0]) (disk s));
     ("db", of_list (fun (h, st) -> JArr [of_bytes h; JStr (match st with Pending -> "pending" | Finished -> "finished")]) (db s));
     ("completed", of_list of_bytes (completed s));
     ("cache", of_list (fun (h, (kd, v)) -> JArr [of_bytes h; of_bool kd; of_bool v]) (cache s));
